@@ -20,7 +20,7 @@ PROPERTY = "C06"
 BYTE_EXACT = False
 CHUNK = {"quick": 24, "thorough": 60}
 PROBES = ["chat_text_not_utf8", "region_handle_announced_again_on_another_address", "packet_id_counter_leapt", "reconnected_session_forwarded", "corrupt_forwarded", "corrupt_discarded", "proxy_originated_in_window", "garbage_between_valid_same_flow", "two_sessions_same_sim", "same_ip", "reopen_after_close",
-          "spontaneous_emission", "packetack_swallowed", "unjudged_after_close", "late_region_registered",
+          "spontaneous_emission", "packetack_swallowed", "unjudged_after_close", "straggler_ids_checked", "late_region_registered",
           "disconnect_midstream", "eager_parsing"]
 COMPONENTS = {
     "real": ["SLSOCKS5Server.handle_connection (SOCKS5 greeting + UDP ASSOCIATE)", "UDPProxyProtocol / "
